@@ -978,6 +978,12 @@ pub fn run_action(sh: &Arc<Shared>, a: &Action) {
       let root = lk(&sh.root).take();
       drop(root);
     }
+    Action::IsSubscribed(k) => {
+      let s = lk(&sh.subs)[*k].clone();
+      if let Some(s) = s {
+        let _ = s.is_subscribed();
+      }
+    }
     Action::Connect => {
       let p = lk(&sh.publish).clone();
       if let Some(p) = p {
